@@ -177,3 +177,28 @@ func (prophet *Prophet) VerifOwn() map[bpv7.EndpointID]float64 {
 	}
 	return out
 }
+
+// --- DTLSR seams ---
+
+// VerifNewDTLSR creates a fresh DTLSR instance on the Core (cron registrations may report duplicate names).
+func VerifNewDTLSR(c *Core, cfg DTLSRConfig) *DTLSR { return NewDTLSR(c, cfg) }
+
+// VerifLinkState feeds a received link-state bundle to NotifyNewBundle without filing it in the store.
+func (dtlsr *DTLSR) VerifLinkState(b bpv7.Bundle) {
+	dtlsr.NotifyNewBundle(BundleDescriptor{Id: b.ID(), bndl: &b, store: dtlsr.c.store})
+}
+
+// VerifRecompute runs the registered recompute task.
+func (dtlsr *DTLSR) VerifRecompute() { dtlsr.recomputeCron() }
+
+// VerifTable returns a copy of the routing table.
+func (dtlsr *DTLSR) VerifTable() map[bpv7.EndpointID]bpv7.EndpointID {
+	t, _ := VerifDTLSRTable(dtlsr)
+	return t
+}
+
+// VerifReceived returns the stored link-state data of other nodes.
+func (dtlsr *DTLSR) VerifReceived() map[bpv7.EndpointID]bpv7.DTLSRPeerData {
+	d, _, _ := VerifDTLSRReceived(dtlsr)
+	return d
+}
